@@ -1,6 +1,7 @@
 //! rxRust verification harness: executes case files against the real crate and prints
 //! one canonical result line per case.
 mod chain;
+mod flatten;
 mod group;
 mod probe;
 mod sexp;
@@ -22,11 +23,49 @@ fn run_case(case: &Sexp) -> String {
     "chain_t" => chain::threads::run_chain(body),
     "hotchain_t" => chain::threads::run_hotchain(body),
     "group_by" => group::run_group_by(body),
+    "flatten" => flatten::run_flatten(body),
     "subject" => subj::run_subject(body),
     "behavior" => subj::run_behavior(body),
     "op2" => chain::local::run_op2(body),
     "op2_t" => chain::threads::run_op2(body),
     k => panic!("unknown case kind {k}"),
+  }
+}
+
+/// Case kinds that may block (a self-deadlock on a Mutex): run under a watchdog so that a
+/// hang is an observation, never a hung check.
+fn may_hang(case: &Sexp) -> bool {
+  let l = case.list();
+  matches!(l[2].atom(), "flatten") && l[3].atom() == "threads"
+}
+
+fn run_guarded(case: Sexp) -> String {
+  if !may_hang(&case) {
+    return run_protected(&case);
+  }
+  let (tx, rx) = std::sync::mpsc::channel();
+  std::thread::spawn(move || {
+    let r = run_protected(&case);
+    let _ = tx.send(r);
+  });
+  match rx.recv_timeout(std::time::Duration::from_millis(400)) {
+    Ok(r) => r,
+    Err(_) => "HANG".to_string(),
+  }
+}
+
+fn run_protected(case: &Sexp) -> String {
+  let r = catch_unwind(AssertUnwindSafe(|| run_case(case)));
+  match r {
+    Ok(t) => t,
+    Err(e) => {
+      let msg = e
+        .downcast_ref::<String>()
+        .cloned()
+        .or_else(|| e.downcast_ref::<&str>().map(|s| s.to_string()))
+        .unwrap_or_default();
+      format!("PANIC {}", msg.replace('\n', " "))
+    }
   }
 }
 
@@ -52,18 +91,8 @@ fn main() {
             .map(|line| {
               let case = sexp::parse(line);
               let id = case.list()[1].atom().to_string();
-              let r = catch_unwind(AssertUnwindSafe(|| run_case(&case)));
-              match r {
-                Ok(t) => format!("{id} {t}"),
-                Err(e) => {
-                  let msg = e
-                    .downcast_ref::<String>()
-                    .cloned()
-                    .or_else(|| e.downcast_ref::<&str>().map(|s| s.to_string()))
-                    .unwrap_or_default();
-                  format!("{id} PANIC {}", msg.replace('\n', " "))
-                }
-              }
+              let t = run_guarded(case);
+              format!("{id} {t}")
             })
             .collect::<Vec<_>>()
         })
